@@ -18,11 +18,22 @@ SqDist(a, b) == FoldLeft(LAMBDA acc, t : acc + (a[t] - b[t]) * (a[t] - b[t]), 0,
 \* est, ref : K x T  (rows of one bin).  S[kref][kest]
 ScoreMul(est, ref) == TLCEval([i \in 1..Len(ref) |-> [j \in 1..Len(est) |-> Dot(est[j], ref[i])]])
 ScoreEucSq(est, ref) == TLCEval([i \in 1..Len(ref) |-> [j \in 1..Len(est) |-> -SqDist(est[j], ref[i])]])
-ScoreOf(metric, est, ref) == IF metric = "euclidean" THEN ScoreEucSq(est, ref) ELSE ScoreMul(est, ref)
+\* 'cos' for non-negative integer rows without zero rows: cos_ij = a_ij / sqrt(b_j c_i) >= 0 has the order of
+\* a_ij^2 / (b_j c_i); multiplied by the product of ALL squared norms this is the integer a_ij^2 prod_{j' # j} b_j' prod_{i' # i} c_i'
+\* (ties are preserved exactly)
+ProdExcept(v, x) == FoldLeft(LAMBDA acc, q : IF q = x THEN acc ELSE acc * v[q], 1, [q \in 1..Len(v) |-> q])
+ScoreCosSq(est, ref) ==
+  LET b == [j \in 1..Len(est) |-> Dot(est[j], est[j])]
+      c == [i \in 1..Len(ref) |-> Dot(ref[i], ref[i])]
+  IN  TLCEval([i \in 1..Len(ref) |-> [j \in 1..Len(est) |-> Dot(est[j], ref[i]) * Dot(est[j], ref[i]) * ProdExcept(b, j) * ProdExcept(c, i)]])
+CosComparable(mask) == \A k \in 1..Len(mask), f \in 1..Len(mask[1]) :
+                          (\A t \in 1..Len(mask[k][f]) : mask[k][f][t] >= 0) /\ (\E t \in 1..Len(mask[k][f]) : mask[k][f][t] > 0)
+ScoreOf(metric, est, ref) == IF metric = "euclidean" THEN ScoreEucSq(est, ref)
+                             ELSE IF metric = "cos" THEN ScoreCosSq(est, ref) ELSE ScoreMul(est, ref)
 Assign(alg, S) == IF alg = "greedy" THEN Greedy(S) ELSE OptimalSeq(S)
 \* 'euclidean' is modelled by SQUARED distances: same order of entries (greedy decisions exact),
 \* but sums over permutations are not comparable -> optimal+euclidean is not replayed exactly
-ExactComparable(metric, alg) == ~(metric = "euclidean" /\ alg = "optimal")
+ExactComparable(metric, alg) == ~(metric \in {"euclidean", "cos"} /\ alg = "optimal")
 AssignTie(alg, S) == IF alg = "greedy" THEN GreedyHasTie(S) ELSE OptimalHasTie(S)
 
 BinRows(m, f) == TLCEval([k \in 1..Len(m) |-> m[k][f]])
